@@ -131,6 +131,8 @@ pub trait Elem: Sized + PartialEq + std::fmt::Debug + 'static {
     const SIDE: u8;
     fn make(val: u32) -> Self;
     fn val(&self) -> u32;
+    /// change the payload in place (through a `&mut` handed out by the container)
+    fn set_val(&mut self, _v: u32) {}
     fn dup(&self) -> Self;
     fn ident(&self) -> u32 {
         0
@@ -181,6 +183,9 @@ impl<const SIDE: u8> Elem for El<SIDE> {
     }
     fn val(&self) -> u32 {
         self.val
+    }
+    fn set_val(&mut self, v: u32) {
+        self.val = v;
     }
     fn dup(&self) -> Self {
         self.clone()
@@ -255,6 +260,9 @@ impl Elem for u8 {
     }
     fn val(&self) -> u32 {
         *self as u32
+    }
+    fn set_val(&mut self, v: u32) {
+        *self = v as u8;
     }
     fn dup(&self) -> Self {
         *self
